@@ -130,7 +130,8 @@ def check_layout(case, R: engine.Acc):
         rel_file = Path(ROOT, *case["ns"], fname)
         f = wsd / rel_file
         f.parent.mkdir(parents=True)
-        f.write_text("uint8 a\n@sealed\n")
+        uses_dep = case["designation"] in ("two-roots", "two-roots-reversed")
+        f.write_text(("other.x.O.1.0 dep\n" if uses_dep else "") + "uint8 a\n@sealed\n")
         other = wsd / "other"
         (other / "x").mkdir(parents=True)
         (other / "x" / "O.1.0.dsdl").write_text("@sealed\n")
@@ -188,6 +189,12 @@ def check_layout(case, R: engine.Acc):
                     else:
                         tg, roots = str(f), str(root)
                     res, _tr = pydsdl.read_files(tg, roots, [], allow_unregulated_fixed_port_id=True)
+                    if uses_dep:
+                        # the identity of a TRANSITIVE type comes from its own path and root as well
+                        tgot = [identity(t, base) for t in _tr]
+                        texp = [{"full_name": "other.x.O", "version": [1, 0], "port": None, "source_file_path": "ws/other/x/O.1.0.dsdl", "source_file_path_to_root": "ws/other"}]
+                        if tgot != texp:
+                            R.violation("identity-differs:transitive", "name, version, port-ID and source paths of a dependency are those encoded in ITS path", case, observed=tgot, expected=texp)
         except pydsdl.InvalidDefinitionError as ex:
             must = (d, case["cwd"]) in MUST_SUCCEED if case["kind"] == "read_files" else d in ("abs", "str") or case["cwd"] == "parent"
             if must:
